@@ -286,7 +286,7 @@ def correspondence(ctx):
     if ctx.thorough:
         plan = _model_plan(ctx, rng, 800, 100, 40, 20)
     else:
-        plan = _model_plan(ctx, rng, 40, 3, 2, 1)
+        plan = _model_plan(ctx, rng, 40, 2, 2, 1)
     specs = []
     for name in plan:
         specs.append(U.rand_problem(rng, name, unary=rng.random() < 0.15))
